@@ -6,7 +6,7 @@
 
     Text is ASCII [string]; the input is the list of physical lines as [read_line] returns them
     (each with its trailing newline except possibly the last).  Nothing is tidied up: the
-    scanner's treatment of "//" inside a block comment, the [starts_with] tests on directives,
+    scanner's cut at the first "//" of the remaining line, the [starts_with] tests on directives,
     the match set computed on the un-substituted line in [replace_all], are all reproduced. *)
 From Coq Require Import String Ascii List Bool Arith NArith.
 From CC Require Import Base.Str.
@@ -373,7 +373,8 @@ Fixpoint scan_loop (fuel : nat) (asm : bool) (remaining out : string) (insert_it
           let out' := out ++ s2 in
           let ins' := if String.eqb out' "" then false else insert_it in
           match tail with
-          | Some t => scan_loop f asm t out' ins' (mkScan true (sc_next_lit st) (sc_lits st))
+          | Some _ => scan_loop f asm (string_drop (String.length s2 + 2) remaining) out' ins'
+                                (mkScan true (sc_next_lit st) (sc_lits st))
           | None => ScanOk out' ins' st
           end in
         if negb (starts_with "#include" s2) && negb asm then
